@@ -41,6 +41,24 @@ func init() {
 			r.Violate(c, "history → result depends on an earlier instance", fmt.Sprintf("fresh process: body %s, then body %s", a, b), fmt.Sprintf("%s vs pristine %s (%v)", strings.TrimSpace(string(h1)), strings.TrimSpace(string(h0)), err), "equal")
 		}
 	})
+	scenario("C14", "props", func(r *core.Run, c core.Case) {
+		var p struct {
+			Format     string
+			First, Set int
+		}
+		params(c, &p)
+		self, _ := os.Executable()
+		fa := "-"
+		if p.First >= 0 {
+			fa = fmt.Sprint(p.First)
+		}
+		h0, _ := exec.Command(self, "c14-props", p.Format, "-", fmt.Sprint(p.Set)).Output()
+		h1, _ := exec.Command(self, "c14-props", p.Format, fa).Output()
+		l := strings.Fields(string(h1))
+		if p.Set < 0 || p.Set >= len(l) || l[p.Set] != strings.TrimSpace(string(h0)) {
+			r.Violate(c, "property matrix → "+p.Format+" output depends on the property sets used earlier in the process", fmt.Sprintf("first %d, set %d", p.First, p.Set), "differs", "equal")
+		}
+	})
 	scenario("C14", "schedule", func(r *core.Run, c core.Case) {
 		var p C14Case
 		params(c, &p)
@@ -204,6 +222,112 @@ func c14LZMAWriterEarlyClose(cfg lzma.WriterConfig, data []byte) c14Body {
 	}}
 }
 
+// sweepSink fails (once, or from then on) at its k-th Write.
+type sweepSink struct {
+	k, calls int
+	forever  bool
+	point    func()
+}
+
+func (s *sweepSink) Write(p []byte) (int, error) {
+	s.point()
+	c := s.calls
+	s.calls++
+	if c == s.k || (s.forever && c > s.k) {
+		return len(p) / 2, errInjected
+	}
+	return len(p), nil
+}
+
+// c14Seq runs a then b in one thread; the observation is b's (a's outcome list is a prefix).
+func c14Seq(a, b c14Body) c14Body {
+	return c14Body{kind: b.kind, run: func(point func()) []byte {
+		a.run(point)
+		return b.run(point)
+	}}
+}
+
+// c14FaultSweep drives instances through their error paths: for every k a writer on a sink that
+// fails at its k-th write (Write, Write, [Flush], Close, Close - errors ignored), or readers on
+// every prefix of a stream and on sources failing at every offset. The result is the list of the
+// (error / no error) outcomes, which is a function of the inputs only.
+func c14FaultSweep(kind string) c14Body { return c14FaultSweepM(kind, []bool{false, true}) }
+
+func c14FaultSweepM(kind string, modes []bool) c14Body {
+	return c14Body{kind: "sweep-" + kind, run: func(point func()) []byte {
+		t := c14Text
+		var log bytes.Buffer
+		rec := func(errs ...error) {
+			for _, e := range errs {
+				if e != nil {
+					log.WriteByte('E')
+				} else {
+					log.WriteByte('.')
+				}
+			}
+			log.WriteByte(';')
+		}
+		for k := 0; k < 14; k++ {
+			for _, forever := range modes {
+				sink := &sweepSink{k: k, forever: forever, point: point}
+				core.Guard(func() {
+					switch kind {
+					case "xzW":
+						w, err := xz.WriterConfig{DictCap: 4096, BlockSize: 50, CheckSum: xz.CRC32}.NewWriter(sink)
+						if err != nil {
+							rec(err)
+							return
+						}
+						_, e1 := w.Write(t[:90])
+						_, e2 := w.Write(t[90:170])
+						rec(e1, e2, w.Close(), w.Close())
+					case "lzma2W":
+						w, err := lzma.Writer2Config{DictCap: 4096}.NewWriter2(sink)
+						if err != nil {
+							rec(err)
+							return
+						}
+						_, e1 := w.Write(t[:90])
+						e2 := w.Flush()
+						_, e3 := w.Write(randBytes(90+k, 80))
+						rec(e1, e2, e3, w.Close(), w.Close())
+					case "lzmaW":
+						w, err := lzma.WriterConfig{DictCap: 4096}.NewWriter(sink)
+						if err != nil {
+							rec(err)
+							return
+						}
+						_, e1 := w.Write(t[:120])
+						rec(e1, w.Close(), w.Close())
+					}
+				})
+			}
+		}
+		if kind == "readers" {
+			dp := ref.Props{LC: 3, LP: 0, PB: 2}
+			xzs := ref.EncodeXZStream(ref.CheckCRC32, []ref.XZBlockSpec{{LZMA2: ref.EncodeLZMA2Simple(t[:90], dp, 60), Plain: t[:90], DictCode: 0}, {LZMA2: ref.EncodeLZMA2Simple(t[90:150], dp, 60), Plain: t[90:150], DictCode: 0}})
+			for cut := 0; cut < len(xzs); cut += 3 {
+				core.Guard(func() {
+					out, err, _, _ := xzDecode(xzs[:cut], 4096, false)
+					rec(err)
+					log.WriteByte(byte('0' + len(out)%10))
+				})
+			}
+			l2 := ref.EncodeLZMA2Simple(t[:140], dp, 70)
+			for cut := 0; cut < len(l2); cut += 3 {
+				core.Guard(func() {
+					rd, err := lzma.Reader2Config{DictCap: 4096}.NewReader2(bytes.NewReader(l2[:cut]))
+					if err == nil {
+						_, err = io.ReadAll(rd)
+					}
+					rec(err)
+				})
+			}
+		}
+		return log.Bytes()
+	}}
+}
+
 func c14LZMA2Writer(cfg lzma.Writer2Config, data []byte) c14Body {
 	return c14Body{kind: "lzma2W", run: func(point func()) []byte {
 		pw := &pointWriter{point: point}
@@ -293,6 +417,9 @@ func c14Scenarios() []c14Scn {
 		// readers decoding uncompressed chunks (bulk copies through staging buffers)
 		{"xzR(raw chunks)|lzma2R(raw chunks)", []c14Body{c14XZReader(mustLibXZ(XZCfg{DictCap: 4096, Check: 1, BlockSize: 100}, randBytes(84, 180))), c14LZMA2Reader(mustLibLZMA2(L2Cfg{DictCap: 4096}, randBytes(85, 160), []L2Step{{"w", 70}, {"f", 0}}))}},
 		{"lzmaW(size, early Close, continued)|lzmaW (bufio)", []c14Body{c14LZMAWriterEarlyClose(lzma.WriterConfig{DictCap: 4096}, t[:80]), c14LZMAWriter(lzma.WriterConfig{DictCap: 4096}, t[10:70], false)}},
+		// an error-path history (writers on sinks failing at every position) followed, in the same
+		// thread, by a CRC32 writer with several blocks, next to another such writer
+		{"sweep(xzW) then xzW(CRC32 blocks)|xzW(CRC32 blocks)", []c14Body{c14Seq(c14FaultSweepM("xzW", []bool{true}), c14XZWriter(xz.WriterConfig{DictCap: 4096, BlockSize: 40, CheckSum: xz.CRC32}, t[:130])), c14XZWriter(xz.WriterConfig{DictCap: 4096, BlockSize: 40, CheckSum: xz.CRC32}, t[20:140])}},
 		// two classic readers whose headers differ in every field (properties, dictionary size, size)
 		{"lzmaR|lzmaR different headers", []c14Body{c14LZMAReader(mustLibLZMA(LZCfg{DictCap: 4096}, t[:60])), c14LZMAReader(mustLibLZMA(LZCfg{Props: true, LC: 0, LP: 2, PB: 1, DictCap: 1 << 16, SizeInHeader: true, Size: 50}, t[30:80]))}},
 		{"lzmaW|lzmaW same props (bufio)", []c14Body{c14LZMAWriter(lzma.WriterConfig{DictCap: 4096}, t[:90], false), c14LZMAWriter(lzma.WriterConfig{DictCap: 4096}, t[10:100], false)}},
@@ -360,6 +487,15 @@ func c14Menu() []c14Body {
 		c14LZMAWriter(lzma.WriterConfig{DictCap: 4096, Properties: &lzma.Properties{LC: 2, LP: 1, PB: 2}}, t[:90], false),
 		c14LZMA2Writer(lzma.Writer2Config{DictCap: 4096, Properties: &lzma.Properties{LC: 1, LP: 2, PB: 2}}, t[30:150]),
 		c14LZMAWriterEarlyClose(lzma.WriterConfig{DictCap: 4096}, t[:80]),
+		// BinaryTree writers with different dictionary sizes and inputs longer than the smaller
+		// dictionary (anything recycled from the bigger one must be cut to size)
+		c14XZWriter(xz.WriterConfig{DictCap: 1 << 16, Matcher: lzma.BinaryTree}, c14Long[:8000]),
+		c14XZWriter(xz.WriterConfig{DictCap: 4096, Matcher: lzma.BinaryTree}, c14Long[200:8200]),
+		c14LZMA2Writer(lzma.Writer2Config{DictCap: 8192, Matcher: lzma.BinaryTree}, c14Long[100:9000]),
+		c14LZMAWriter(lzma.WriterConfig{DictCap: 4096, Matcher: lzma.BinaryTree}, c14Long[300:7000], false),
+		// error-path histories: writers on sinks that fail at every position, readers on sources that
+		// end or fail at every position - what they leave behind must not reach a later instance
+		c14FaultSweep("xzW"), c14FaultSweep("lzma2W"), c14FaultSweep("lzmaW"), c14FaultSweep("readers"),
 	)
 	// four CRC32 writers with raw payloads of consecutive lengths: one of them has a block whose
 	// compressed size is a multiple of four (no block padding)
@@ -469,6 +605,137 @@ func c14History(r *core.Run) {
 	r.Trans(fmt.Sprintf("history: %d ordered pairs of %d bodies, each in a fresh process", n*n, n))
 }
 
+// ---- property matrix: every property set after every other one ----
+
+func c14PropSets(format string) [][3]int {
+	if format == "lzma2W" {
+		return allProps2()
+	}
+	var out [][3]int
+	for lc := 0; lc <= 8; lc++ {
+		for lp := 0; lp <= 4; lp++ {
+			for pb := 0; pb <= 4; pb++ {
+				out = append(out, [3]int{lc, lp, pb})
+			}
+		}
+	}
+	return out
+}
+
+func c14PropBody(format string, p [3]int) []byte {
+	pr := &lzma.Properties{LC: p[0], LP: p[1], PB: p[2]}
+	var sb sinkBuf
+	in := c14Text[:180]
+	var e1, e2 error
+	if format == "lzma2W" {
+		w, err := lzma.Writer2Config{DictCap: 4096, Properties: pr}.NewWriter2(&sb)
+		if err != nil {
+			return []byte("ctor:" + err.Error())
+		}
+		_, e1 = w.Write(in)
+		e2 = w.Close()
+	} else {
+		w, err := lzma.WriterConfig{DictCap: 4096, Properties: pr}.NewWriter(&sb)
+		if err != nil {
+			return []byte("ctor:" + err.Error())
+		}
+		_, e1 = w.Write(in)
+		e2 = w.Close()
+	}
+	return append([]byte(fmt.Sprintf("%v;%v;", e1, e2)), sb.b...)
+}
+
+// C14PropsMain is the child of the property matrix: `vcheck c14-props <format> <first|-> [only]`
+// creates a writer with property set number `first` (if any), then one with every property set
+// in order (or just set `only`), and prints one SHA-256 per set.
+func C14PropsMain(args []string) int {
+	if len(args) < 2 {
+		return 2
+	}
+	sets := c14PropSets(args[0])
+	if args[1] != "-" {
+		var f int
+		fmt.Sscan(args[1], &f)
+		c14PropBody(args[0], sets[f])
+	}
+	if len(args) > 2 {
+		var k int
+		fmt.Sscan(args[2], &k)
+		fmt.Printf("%x\n", sha256.Sum256(c14PropBody(args[0], sets[k])))
+		return 0
+	}
+	for _, p := range sets {
+		fmt.Printf("%x\n", sha256.Sum256(c14PropBody(args[0], p)))
+	}
+	return 0
+}
+
+// c14PropsMatrix: for both writer kinds with explicit properties and every property set A (75 for
+// LZMA2, 225 for classic LZMA): a fresh process creates a writer with A and then writers with all
+// property sets in order; every output must equal the output of a process that ran only that set.
+// Anything keyed by less than (lc, lp, pb) - or by a wrong mixed-radix index of them - shows as a
+// difference for the first colliding successor.
+func c14PropsMatrix(r *core.Run) {
+	self, err := os.Executable()
+	if err != nil {
+		r.CapHit("property matrix not run: " + err.Error())
+		return
+	}
+	for _, format := range []string{"lzma2W", "lzmaW"} {
+		sets := c14PropSets(format)
+		n := len(sets)
+		pristine := make([]string, n)
+		r.Parallel(n, "property matrix: pristine outputs", func(k int) {
+			out, _ := exec.Command(self, "c14-props", format, "-", fmt.Sprint(k)).Output()
+			pristine[k] = strings.TrimSpace(string(out))
+		})
+		for k := range pristine {
+			if len(pristine[k]) != 64 {
+				r.Violate(core.MkCase("C14", "props", map[string]interface{}{"Format": format, "First": -1, "Set": k}), "property matrix → writer fails in a fresh process", fmt.Sprintf("%s with properties %v alone", format, sets[k]), pristine[k], "a result")
+				return
+			}
+		}
+		step := 1
+		if !thorough(r) && format == "lzmaW" {
+			step = 3 // quick: every third first set for the 225 classic sets (the chain itself still visits all)
+		}
+		var firsts []int
+		for f := -1; f < n; f += step {
+			firsts = append(firsts, f)
+		}
+		r.Parallel(len(firsts), "property matrix: chains", func(i int) {
+			f := firsts[i]
+			fa := "-"
+			if f >= 0 {
+				fa = fmt.Sprint(f)
+			}
+			out, err := exec.Command(self, "c14-props", format, fa).Output()
+			lines := strings.Fields(string(out))
+			if err != nil || len(lines) != n {
+				r.Violate(core.MkCase("C14", "props", map[string]interface{}{"Format": format, "First": f, "Set": -1}), "property matrix → chain fails", fmt.Sprintf("%s: first set %d then all sets", format, f), fmt.Sprint(err, len(lines)), "one result per set")
+				return
+			}
+			for k := range lines {
+				if lines[k] != pristine[k] {
+					first := "none"
+					if f >= 0 {
+						first = fmt.Sprint(sets[f])
+					}
+					r.Violate(core.MkCase("C14", "props", map[string]interface{}{"Format": format, "First": f, "Set": k}), "property matrix → "+format+" output depends on the property sets used earlier in the process",
+						fmt.Sprintf("fresh process: %s with properties %s, then with every property set in order; the output for %v", format, first, sets[k]), "differs from the output of a process that used only these properties", "deterministic function of configuration and input")
+					break
+				}
+			}
+			r.Eval(core.Hash("props", format, f, strings.Join(lines, "")))
+			r.Nontrivial(core.Hash("props", format, f))
+			r.Trace(1)
+		})
+		r.Extra("property_matrix_"+format, fmt.Sprintf("%d property sets, %d chains of %d writers", n, len(firsts), n+1))
+	}
+	r.State("property matrix")
+	r.Trans("property matrix: every property set after every other one (lzma2W 75, lzmaW 225)")
+}
+
 func compressTrace(t []int) string {
 	var b strings.Builder
 	for i := 0; i < len(t); {
@@ -534,7 +801,7 @@ func runC14(r *core.Run) {
 	if th {
 		bound = 3
 	}
-	r.Rule = fmt.Sprintf("2-3 goroutine bodies, each driving its own xz/LZMA/LZMA2 writer or reader, under a cooperative scheduler; scheduling points: every public call boundary, every call-back into the harness' sink/source (one per sink write / source read, the decoders read byte by byte) and every sync/sync-atomic operation of the repository (routed through an overlay shim); DFS with iterative preemption bounding (bound %d); oracle: every thread's result equals its solo run, outputs decode with the reference, solo runs first and last are byte-identical; a history check: every ordered pair of a menu of 33 bodies (all writer kinds, check types, raw first chunks, readers) in a fresh process, the second result must equal its result in a pristine process; plus a separate free-running pass of the same bodies under the race detector with GOMAXPROCS 2/4/16. states = scenarios x preemption counts; non-trivial = distinct (scenario, schedule)", bound)
+	r.Rule = fmt.Sprintf("2-3 goroutine bodies, each driving its own xz/LZMA/LZMA2 writer or reader, under a cooperative scheduler; scheduling points: every public call boundary, every call-back into the harness' sink/source (one per sink write / source read, the decoders read byte by byte) and every sync/sync-atomic operation of the repository (routed through an overlay shim); DFS with iterative preemption bounding (bound %d); oracle: every thread's result equals its solo run, outputs decode with the reference, solo runs first and last are byte-identical; a history check: every ordered pair of a menu of 41 bodies (all writer kinds, check types, raw first chunks, readers) in a fresh process, the second result must equal its result in a pristine process; plus a separate free-running pass of the same bodies under the race detector with GOMAXPROCS 2/4/16. states = scenarios x preemption counts; non-trivial = distinct (scenario, schedule)", bound)
 	if shimCalls != nil {
 		r.Extra("sync_shim_overlay", "active")
 	} else {
@@ -604,6 +871,7 @@ func runC14(r *core.Run) {
 	r.Sample(map[string]interface{}{"scenario": scns[0].name, "schedule": "T0x3 T1x9 T0x12 T1x4 (thread x consecutive points)"})
 	// history check: all ordered pairs of the body menu, each pair in a fresh process
 	c14History(r)
+	c14PropsMatrix(r)
 	// free-running race pass
 	rb := os.Getenv("VERIF_RACE_BIN")
 	if rb == "" {
